@@ -37,22 +37,43 @@ class BondForm(transformation):
                          self.bondtype)
 
 
+def checkbondtype(name, comb_mol, idx1, idx2, bondtype):
+    # The electron balance of the rule was computed for a bond of this type
+    # (taken from the reactant pattern); an earlier transformation of the
+    # same rule may have changed or removed it.
+    bond = comb_mol.GetBondBetweenAtoms(idx1, idx2)
+    if bond is None or bond.GetBondType() != bondtype:
+        raise ReactionQueryError(name + ': the bond between the two atoms',
+                                 'is not the ' + bondtype.__str__()
+                                 + ' bond the rule was balanced for')
+
+
 class BondBreak(transformation):
-    def __init__(self, idx1, idx2):
+    def __init__(self, idx1, idx2, bondtype=None):
         self.idx1 = idx1
         self.idx2 = idx2
+        # bond type the break was balanced for (None: not checked)
+        self.bondtype = bondtype
 
     def __call__(self, comb_mol, mapped_index):
+        if self.bondtype is not None:
+            checkbondtype('BondBreak', comb_mol, mapped_index[self.idx1],
+                          mapped_index[self.idx2], self.bondtype)
         comb_mol.RemoveBond(mapped_index[self.idx1], mapped_index[self.idx2])
 
 
 class BondModify(transformation):
-    def __init__(self, idx1, idx2, bondtype):
+    def __init__(self, idx1, idx2, bondtype, oldtype=None):
         self.idx1 = idx1
         self.idx2 = idx2
         self.bondtype = bondtype
+        # bond type the modification was balanced against (None: not checked)
+        self.oldtype = oldtype
 
     def __call__(self, comb_mol, mapped_index):
+        if self.oldtype is not None:
+            checkbondtype('BondModify', comb_mol, mapped_index[self.idx1],
+                          mapped_index[self.idx2], self.oldtype)
         comb_mol.RemoveBond(mapped_index[self.idx1], mapped_index[self.idx2])
         comb_mol.AddBond(mapped_index[self.idx1],
                          mapped_index[self.idx2], self.bondtype)
@@ -122,12 +143,20 @@ class AtomTypeModify(transformation):
 
 
 class RadicalModify(transformation):
-    def __init__(self, idx, radical):
+    def __init__(self, idx, radical, oldradical=None):
         self.idx = idx
         self.radical = radical
+        # radical count the rule was balanced against (None: not checked)
+        self.oldradical = oldradical
 
     def __call__(self, comb_mol, mapped_index):
         atom = comb_mol.GetAtomWithIdx(mapped_index[self.idx])
+        if self.oldradical is not None and\
+                atom.GetNumRadicalElectrons() != self.oldradical:
+            raise ReactionQueryError('RadicalModify: the atom does not carry',
+                                     'the ' + str(self.oldradical)
+                                     + ' radical electrons the rule was',
+                                     'balanced for')
         atom.SetNumRadicalElectrons(self.radical)
 
 
